@@ -47,6 +47,12 @@ PROVED = (
     'samples, else returns exactly the linked stations; `estimate` after _angles_to_poses: no-reference / cannot-link / '
     'crash-on-empty-sample / answer, classified exactly; reference = smallest id of the first sample with >= 2 stations; '
     'for consistent per-sample poses over any group the answer is the truth in the frame of that sample\'s Crazyflie. '
+    'Decision logic with the numeric kernels as parameters (C09/Decide.v): if the true candidates of a station pair share '
+    'one bucket and every bucket holding a non-true candidate is strictly smaller, the vote returns exactly the true bucket '
+    '(C09_vote_sufficient_partial); if true pairs are strictly nearest to the voted position and inside the outlier bound, '
+    '_choose_solutions succeeds with a true pair (C09_choose_sufficient_partial); then the sample is kept with true poses '
+    '(C09_angles_to_poses_sufficient_partial); every station gets its pose exactly once. Premise-failing configurations '
+    'proved for F09b, F09e, near-coincident stations. '
     'EXTENSION outside the quantifier: calls built from steps that touch no shared state return, under every '
     'interleaving, what they return alone (C09_local_steps_commute, C09_overlapping_estimates_independent; '
     'C09_shared_scratch_refuted for a class-level scratch cell). '
@@ -83,7 +89,8 @@ def generate(ctx):
 
 # ---------------------------------------------------------------------------------------------- matcher: cases
 
-HEADER = '''From CF Require Import Common.Bytes C09.Model C09.Vote.
+HEADER = '''From Coq Require Import QArith Qabs.
+From CF Require Import Common.Bytes C09.Model C09.Vote C09.Decide.
 Open Scope Z_scope.
 Definition flat_sample (s : Z * list (Z * Z)) : list Z :=
   fst s :: Z.of_nat (length (snd s)) :: flat_map (fun e => [fst e; snd e]) (snd s).
@@ -98,6 +105,17 @@ Definition run_all (d mn : Z) (n : nat) : list Z := concat (map (run_match d mn)
 Definition near_q (a b : Z) : bool := Z.abs (a - b) <? 4.     (* positions in quarter metres: |d|/4 < 0.8 <-> |d| <= 3 *)
 Definition run_vote (pl : list (list Z)) : Z * Z :=
   let b := vote near_q pl in (fold_right Z.add 0 b, Z.of_nat (length b)).
+Definition qdist (a b : Q) : Q := Qabs (a - b)%Q.
+Definition qlt (a b : Q) : bool := negb (Qle_bool b a).
+Definition qmean (l : list Q) : Q := (fold_right Qplus 0%Q l / inject_Z (Z.of_nat (length l)))%Q.
+Definition qrel (a b : Q) : Q := (b - a)%Q.
+Definition encq (q : Q) : list Z := let r := Qred q in [Qnum r; Zpos (Qden r)].
+Definition run_expected (ss : list (list (Z * list Q))) (i j : Z) : list Z :=
+  encq (expected qdist qlt (4 # 5)%Q qmean qrel ss i j).
+Definition enc_opt (o : option (list (Z * Q))) : list Z :=
+  match o with None => [-1] | Some d => Z.of_nat (length d) :: flat_map (fun e => fst e :: encq (snd e)) d end.
+Definition run_decide (ss : list (list (Z * list Q))) : list Z :=
+  flat_map enc_opt (decide qdist qlt (4 # 5)%Q (1 # 2)%Q (100000 # 1)%Q qmean qrel 0%Q ss).
 Definition encp (e : Z * Z) : Z := fst e * 4294967296 + (snd e + 2147483648).
 Definition enc_lres (r : lres (list (Z * Z))) : list Z :=
   match r with LOk bp => 1 :: sort_ids (map encp bp) | LRaise => [2] | LFuel => [3] end.
@@ -511,23 +529,355 @@ def _tie_vote(ctx, dis, info):
     return len(cases), polluted, [{'vote_position_lists_quarter_metres': cases[0]}]
 
 
+# ---- decision logic: real _find_solutions / _angles_to_poses with IPPE replaced by a scripted candidate oracle
+class _ScriptedAngles:
+    """Stands for LighthouseBsVectors: carries the two candidate poses (one axis) the scripted IPPE returns."""
+
+    def __init__(self, x0, x1):
+        self.x = (float(x0), float(x1))
+
+    def projection_pair_list(self):
+        import numpy as np
+        return np.array([[self.x[0], self.x[1]], [0.0, 0.0], [0.0, 0.0], [0.0, 0.0]])
+
+
+def _impl_decide(case):
+    import warnings
+    import numpy as np
+    from cflib.localization import ippe_cf
+    from cflib.localization.lighthouse_initial_estimator import LighthouseInitialEstimator as E
+    from cflib.localization.lighthouse_types import LhCfPoseSample, LhDeck4SensorPositions
+    from fractions import Fraction
+    samples = [LhCfPoseSample(timestamp=float(k), angles_calibrated={
+        b: _ScriptedAngles(Fraction(*x0), Fraction(*x1)) for b, x0, x1 in s}) for k, s in enumerate(case['ss'])]
+    orig = ippe_cf.IppeCf.solve
+    Sol = ippe_cf.IppeCf.Solution
+
+    def solve(U, Q):
+        return [Sol(np.identity(3), np.array((-float(Q[0][0]), 0.0, 0.0)), 0.0),
+                Sol(np.identity(3), np.array((-float(Q[0][1]), 0.0, 0.0)), 0.0)]
+    ippe_cf.IppeCf.solve = staticmethod(solve)
+    try:
+        with warnings.catch_warnings():
+            warnings.simplefilter('ignore')
+            try:
+                pos = E._find_solutions(samples, LhDeck4SensorPositions.positions)
+                res, cleaned = E._angles_to_poses(samples, LhDeck4SensorPositions.positions, pos)
+            except Exception as e:  # noqa
+                return {'raise': '%s: %s' % (type(e).__name__, str(e)[:100])}
+    finally:
+        ippe_cf.IppeCf.solve = staticmethod(orig)
+    kept = [id(c) for c in cleaned]
+    out = []
+    it = iter(res)
+    for smp in samples:
+        if id(smp) in kept:
+            d = next(it)
+            out.append([[int(k), float(v.translation[0])] for k, v in d.items()])
+        else:
+            out.append(None)
+    return {'expected': {(int(k[0]), int(k[1])): [float(x) for x in v] for k, v in pos.items()}, 'samples': out}
+
+
+def _q(x):
+    return '(%d # %d)%%Q' % (x[0], x[1])
+
+
+def _decide_term(case):
+    return '[' + '; '.join('[' + '; '.join('(%d, [%s; %s])' % (b, _q(x0), _q(x1)) for b, x0, x1 in s) + ']'
+                           for s in case['ss']) + ']'
+
+
+def _decide_pairs(case):
+    ps = set()
+    for s in case['ss']:
+        ids = sorted(b for b, _, _ in s)
+        for a in range(len(ids)):
+            for b in range(a + 1, len(ids)):
+                ps.add((ids[a], ids[b]))
+    return sorted(ps)
+
+
+def _fr(x):
+    from fractions import Fraction
+    f = Fraction(x).limit_denominator(1 << 40) if isinstance(x, float) else Fraction(*x)
+    return [f.numerator, f.denominator]
+
+
+def _cfg_case(lists_cm):
+    """Two stations (1, 2) whose scripted solutions reproduce the candidate lists [c0, c1, c2, c3] (centimetres) of the
+    refutation theorems: t1 = 0, t2 = c0, m2 = c1, m1 = c0 - c2 (then c3 = c1 + c2 - c0)."""
+    ss = []
+    for c0, c1, c2, c3 in lists_cm:
+        assert c3 == c1 + c2 - c0
+        ss.append([[1, [0, 100], [c0 - c2, 100]], [2, [c0, 100], [c1, 100]]])
+    return {'ss': [[[b, _fr(x0), _fr(x1)] for b, x0, x1 in s] for s in ss]}
+
+
+def _decide_cases(ctx, n):
+    from fractions import Fraction
+    cases = [_cfg_case([[0, 30, 250, 280], [0, 45, 300, 345], [0, 400, 20, 420]]),          # F09b (theorem config)
+             _cfg_case([[0, 200, 210, 410], [0, 195, 205, 400], [0, 204, 199, 403]]),        # F09e
+             _cfg_case([[20, 12, -15, -23], [20, 9, -22, -33]])]                             # near-coincident stations
+    for _ in range(n):
+        n_bs = ctx.rng.randint(2, 4)
+        ids = ctx.rng.sample(range(16), n_bs)
+        X = {b: Fraction(ctx.rng.randint(-256, 256), 64) for b in ids}
+        kind = ctx.rng.choice(['spread', 'spread', 'polluted', 'symmetric', 'coincident', 'mixed'])
+        if kind == 'coincident':
+            base = X[ids[0]]
+            X = {b: base + Fraction(ctx.rng.randint(-12, 12), 64) for b in ids}
+        ss = []
+        for _k in range(ctx.rng.randint(1, 7)):
+            c = Fraction(ctx.rng.randint(-128, 128), 64)
+            sub = ctx.rng.sample(ids, ctx.rng.randint(1, n_bs))
+            sym = Fraction(ctx.rng.randint(90, 200), 64)
+            s = []
+            for b in sub:
+                t = X[b] - c + Fraction(ctx.rng.choice([0, 0, 0, 1, -1]), 4096)        # exact truth +- scatter
+                k2 = kind if kind != 'mixed' else ctx.rng.choice(['spread', 'polluted', 'symmetric'])
+                if k2 == 'spread':
+                    dlt = Fraction(ctx.rng.choice([-1, 1]) * ctx.rng.randint(70, 400), 64)
+                elif k2 in ('polluted', 'coincident'):
+                    dlt = Fraction(ctx.rng.choice([-1, 1]) * ctx.rng.randint(4, 45), 64)
+                else:
+                    dlt = (sym if sorted(sub).index(b) % 2 == 0 else -sym) + Fraction(ctx.rng.randint(-6, 6), 64)
+                m = t + dlt
+                sols = [t, m] if ctx.rng.random() < 0.8 else [m, t]
+                s.append([b, [sols[0].numerator, sols[0].denominator], [sols[1].numerator, sols[1].denominator]])
+            ss.append(s)
+        cases.append({'ss': ss, 'gen': kind, 'truth': {str(b): [X[b].numerator, X[b].denominator] for b in ids}})
+    return cases
+
+
+def _check_decide(case):
+    """Property-text side for scripted candidates (exact arithmetic, independent of the Coq model): when the premises of
+    the decision-logic theorems hold for the candidates, the real _find_solutions/_angles_to_poses must keep every sample
+    and store a true pose (within 1/1024 m) for every station of every sample with >= 2 stations."""
+    from fractions import Fraction
+    if 'truth' not in case:
+        return None
+    X = {int(b): Fraction(*v) for b, v in case['truth'].items()}
+    EPS = Fraction(1, 1024)
+    samples = [{b: [Fraction(*x0), Fraction(*x1)] for b, x0, x1 in s} for s in case['ss']]
+    # which scripted solution is the true one: the pair-wise differences of true solutions equal X_j - X_i
+    def true_sols(d):
+        ids = sorted(d)
+        if len(ids) < 2:
+            return None
+        best = None
+        for c in set(x - X[ids[0]] for x in d[ids[0]]):        # candidate CF offset
+            t = {b: [x for x in d[b] if abs(x - X[b] - c) <= EPS] for b in ids}
+            if all(t[b] for b in ids):
+                best = t
+        return best
+    expected = {}
+    lists = {}
+    for d in samples:
+        ids = sorted(d)
+        for a in range(len(ids)):
+            for b in range(a + 1, len(ids)):
+                lists.setdefault((ids[a], ids[b]), []).append([p2 - p1 for p1 in d[ids[a]] for p2 in d[ids[b]]])
+    for (i, j), ls in lists.items():
+        tr = X[j] - X[i]
+        refs = ls[0]
+        buckets = [[], [], [], []]
+        for cs in ls:
+            for c in cs:
+                for r in range(4):
+                    if abs(c - refs[r]) < Fraction(4, 5):
+                        buckets[r].append(c)
+                        break
+        ist = [[abs(c - tr) <= 2 * EPS for c in b] for b in buckets]
+        homes = [r for r in range(4) if any(ist[r])]
+        n_true = sum(1 for cs in ls for c in cs if abs(c - tr) <= 2 * EPS)
+        if len(homes) != 1 or sum(ist[homes[0]]) != n_true:
+            return None
+        h = homes[0]
+        if any((not all(ist[r])) and len(buckets[r]) >= len(buckets[h]) for r in range(4)):
+            return None
+        expected[(i, j)] = sum(buckets[h]) / len(buckets[h])
+    for d in samples:
+        ids = sorted(d)
+        if len(ids) < 2:
+            continue
+        ts = true_sols(d)
+        if ts is None:
+            return None
+        for o in ids[1:]:
+            e = expected[(ids[0], o)]
+            dt = [abs(e - (p2 - p1)) for p1 in ts[ids[0]] for p2 in ts[o]]
+            dn = [abs(e - (p2 - p1)) for p1 in d[ids[0]] for p2 in d[o] if not (p1 in ts[ids[0]] and p2 in ts[o])]
+            if (dn and not max(dt) < min(dn)) or max(dt) > Fraction(1, 2):
+                return None
+    # premise holds
+    iv = _impl_decide(case)
+    bad = None
+    if 'raise' in iv:
+        bad = iv['raise']
+    else:
+        for k, (d, got) in enumerate(zip(samples, iv['samples'])):
+            if got is None:
+                bad = 'sample %d dropped' % k
+                break
+            ts = true_sols(d)
+            if len(d) >= 2 and (sorted(x[0] for x in got) != sorted(d) or any(
+                    min(abs(Fraction(x[1]).limit_denominator(1 << 40) - t) for t in ts[x[0]]) > EPS for x in got)):
+                bad = 'sample %d: stored poses %s are not the true candidates' % (k, got)
+                break
+    if bad:
+        return {'class': 'scripted_candidates_premise_holds_but_wrong_pick', 'case': {'kind': 'decide', **case},
+                'expected': 'every sample kept, every stored pose a true candidate (premises of C09_vote_sufficient_partial '
+                            'and C09_choose_sufficient_partial hold for these candidates)', 'observed': bad,
+                'detail': 'ss = per sample [station, candidate 0, candidate 1] as fractions of a metre on one axis'}
+    return False        # premise holds, estimator right
+
+
+def _tie_sensitive(case, exp):
+    """True when the outcome on the exact candidates depends on how a float tie / threshold equality is broken."""
+    from fractions import Fraction
+    for s in case['ss']:
+        d = {b: [Fraction(*x0), Fraction(*x1)] for b, x0, x1 in s}
+        ids = sorted(d)
+        for o in ids[1:]:
+            e = exp.get((ids[0], o))
+            if e is None:
+                return True
+            ds = [abs(e - (p2 - p1)) for p1 in d[ids[0]] for p2 in d[o]]
+            m = min(ds)
+            if sum(1 for x in ds if x == m) > 1 or m == Fraction(1, 2) or any(0 < abs(x - m) < Fraction(1, 10 ** 9) for x in ds):
+                return True
+    for (i, j) in exp:
+        for s in case['ss']:
+            d = {b: [Fraction(*x0), Fraction(*x1)] for b, x0, x1 in s}
+            if i in d and j in d:
+                cs = [p2 - p1 for p1 in d[i] for p2 in d[j]]
+                first = next(t for t in case['ss'] if i in [b for b, _, _ in t] and j in [b for b, _, _ in t])
+                fd = {b: [Fraction(*x0), Fraction(*x1)] for b, x0, x1 in first}
+                refs = [p2 - p1 for p1 in fd[i] for p2 in fd[j]]
+                if any(abs(c - r) == Fraction(4, 5) for c in cs for r in refs):
+                    return True
+    return False
+
+
+def _tie_decide(ctx, dis, info):
+    from fractions import Fraction
+    cases = _decide_cases(ctx, ctx.scale(300, 3000))
+    terms = []
+    for c in cases:
+        t = _decide_term(c)
+        terms.append('(run_decide %s, [%s])' % (t, '; '.join('run_expected %s %d %d' % (t, i, j) for i, j in _decide_pairs(c))))
+    model = coqrun.eval_terms(HEADER, terms, tag='c09d', shard=20)
+    n_ok = skipped = dropped = wrong_pick = 0
+    for c, mv in zip(cases, model):
+        dec, exps = mv
+        exp = {p: Fraction(e[0], e[1]) for p, e in zip(_decide_pairs(c), exps)}
+        if _tie_sensitive(c, exp):
+            skipped += 1
+            continue
+        iv = _impl_decide(c)
+        # decode the model's decision
+        mdec, k = [], 0
+        for _s in c['ss']:
+            if dec[k] == -1:
+                mdec.append(None)
+                k += 1
+            else:
+                n = dec[k]
+                mdec.append([[dec[k + 1 + 3 * t], Fraction(dec[k + 2 + 3 * t], dec[k + 3 + 3 * t])] for t in range(n)])
+                k += 1 + 3 * n
+        ok = 'raise' not in iv
+        if ok:
+            ok = sorted(iv['expected']) == sorted(exp) and all(
+                abs(iv['expected'][p][0] - float(exp[p])) < 1e-9 and abs(iv['expected'][p][1]) < 1e-12 for p in exp)
+        if ok:
+            for a, b in zip(iv['samples'], mdec):
+                if (a is None) != (b is None) or (a is not None and (
+                        [x[0] for x in a] != [x[0] for x in b] or any(abs(x[1] - float(y[1])) > 1e-12 for x, y in zip(a, b)))):
+                    ok = False
+        if not ok and len(dis) < 20:
+            dis.append({'what': '_find_solutions/_angles_to_poses with scripted IPPE: model (C09/Decide.v) and '
+                                'implementation differ', 'case': {'kind': 'decide', **c},
+                        'model': {'expected': {str(p): str(v) for p, v in exp.items()},
+                                  'samples': [None if d is None else [[i, str(v)] for i, v in d] for d in mdec]},
+                        'impl': iv if 'raise' in iv else {'expected': {str(p): v for p, v in iv['expected'].items()},
+                                                          'samples': iv['samples']}})
+        n_ok += ok
+        dropped += sum(1 for d in mdec if d is None)
+    info['decide'] = {'cases': len(cases), 'compared': len(cases) - skipped, 'skipped_float_tie_sensitive': skipped,
+                      'agree': n_ok, 'samples_dropped_by_model': dropped,
+                      'theorem_configurations_included': ['F09b', 'F09e', 'near_coincident']}
+    return len(cases) - skipped, n_ok, [{'scripted_candidates': cases[3]['ss'][:2]}]
+
+
+def _premise_room(case):
+    R = _rooms()
+    try:
+        pr = R.decision_premise(case)
+    except Exception as e:  # noqa
+        pr = {'holds': None, 'why': repr(e)}
+    return pr, R.run_estimator(case)
+
+
+def _tie_premise(ctx, dis, info):
+    """The theorems' premise evaluated from the truth on real rooms (real IPPE) against what the real estimator decides:
+    premise holds => every sample kept, every station answered, initial estimate within 1 mm / 1 mrad of the truth."""
+    R = _rooms()
+    rooms = [('random', R.gen_room(ctx.rng, n_cf=ctx.rng.randint(3, 14))) for _ in range(ctx.scale(50, 600))]
+    rooms += [('structured', R.gen_structured_room(ctx.rng)) for _ in range(ctx.scale(20, 200))]
+    rooms = [(k, c) for k, c in rooms if len(R.linked_components([s for s in c['vis'] if len(set(s)) >= 2])) == 1]
+    try:
+        import multiprocessing as mp
+        import cflib.localization.lighthouse_initial_estimator  # noqa
+        with mp.get_context('fork').Pool(processes=8) as pool:
+            outs = pool.map(_premise_room, [c for _, c in rooms], chunksize=2)
+    except Exception:  # noqa
+        outs = [_premise_room(c) for _, c in rooms]
+    stats = {}
+    n_hold = 0
+    for (kind, case), (pr, est) in zip(rooms, outs):
+        right = (est['outcome'] == 'ok' and est['n_cleaned'] == est['n_matched'] and est['ids'] == R.expected_ids(case)
+                 and max(est['guess_bs'] + est['guess_cf']) <= 1e-3)
+        d = stats.setdefault(kind, {'premise_holds': 0, 'premise_fails': 0, 'premise_fails_estimator_right': 0,
+                                    'premise_fails_estimator_wrong': 0, 'not_evaluated': 0})
+        if pr['holds'] is None:
+            d['not_evaluated'] += 1
+            continue
+        if pr['holds']:
+            d['premise_holds'] += 1
+            n_hold += 1
+            if not right and len(dis) < 24:
+                dis.append({'what': 'premise of the decision-logic theorems holds (from the truth) but the real estimator '
+                                    'does not return the true initial estimate', 'case': {'kind': 'room', 'room': case},
+                            'model': 'all samples kept, all stations, initial estimate within 1 mm / 1 mrad',
+                            'impl': {k: v for k, v in est.items()}})
+        else:
+            d['premise_fails'] += 1
+            d['premise_fails_estimator_right' if right else 'premise_fails_estimator_wrong'] += 1
+    info['premise_on_rooms'] = stats
+    return len(rooms), n_hold, [{'premise_on_rooms': stats}]
+
+
 def tie(ctx):
     dis = []
     info = {}
     n1, nt1, s1 = _tie_matcher(ctx, dis, info)
     n2, nt2, s2 = _tie_link(ctx, dis, info)
     n3, nt3, s3 = _tie_vote(ctx, dis, info)
-    return {'evaluations': n1 + n2 + n3, 'distinct_nontrivial': nt1 + nt2 + nt3,
+    n4, nt4, s4 = _tie_decide(ctx, dis, info)
+    n5, nt5, s5 = _tie_premise(ctx, dis, info)
+    return {'evaluations': n1 + n2 + n3 + n4 + n5, 'distinct_nontrivial': nt1 + nt2 + nt3 + nt4 + nt5,
             'rule': 'matcher: >= 2 output samples and some measurement overwritten or filtered; linkage: >= 3 stations '
                     'and (raises or resolves >= 2 stations beyond the known ones); vote: a mirror candidate ends up in '
                     'the winning bucket although every sample contains the exact truth',
-            'samples': s1 + s2 + s3, 'distribution': info, 'exhaustive': False, 'disagreements': dis}
+            'samples': s1[:1] + s2[:1] + s3 + s4 + s5, 'distribution': info, 'exhaustive': False, 'disagreements': dis}
 
 
 # ---------------------------------------------------------------------------------------------- oracle
 
 KNOWN_RATE_CLASSES = ('mirror_vote_wrong_initial_bs_pose', 'mirror_choice_wrong_initial_cf_pose',
-                      'error_free_sample_discarded', 'mirror_bucket_outvotes_true_bucket')
+                      'error_free_sample_discarded', 'mirror_bucket_outvotes_true_bucket',
+                      'linked_system_rejected_links_discarded')
 
 
 def _rooms():
@@ -539,8 +889,8 @@ def _eval_room(args):
     case, exact, jitter = args
     R = _rooms()
     res = R.run_pipeline(case, exact=exact, jitter=jitter)
-    j = R.judge(case, res)
-    return j
+    j, pr = R.judge_with_premise(case, res)
+    return j, (None if pr is None else pr['holds'])
 
 
 def _run_rooms(cases, exact, procs=8, jitter=0.0):
@@ -639,10 +989,12 @@ def _check_case(case, ctx=None):
     """Property text on one stored/generated case.  Returns a failure dict or None."""
     kind = case.get('kind')
     if kind in ('room', 'room_exact'):
-        j = _eval_room((case['room'], kind == 'room_exact', case.get('jitter', 0.0)))
+        j, _pr = _eval_room((case['room'], kind == 'room_exact', case.get('jitter', 0.0)))
         return _room_failure(case['room'], j, kind, case.get('jitter', 0.0)) if j else None
     if kind == 'average':
         return _check_average(case)
+    if kind == 'decide':
+        return _check_decide(case) or None
     if kind == 'overlap':
         from fakes import c09_overlap
         j = c09_overlap.check(case)
@@ -765,8 +1117,17 @@ def _corpus():
     return out
 
 
+def _count_premise(prem, kind, pr, j):
+    key = {True: 'premise_holds', False: 'premise_fails', None: 'not_evaluated'}[pr]
+    d = prem.setdefault(kind, {})
+    d[key] = d.get(key, 0) + 1
+    if j:
+        d[key + '_and_estimator_wrong'] = d.get(key + '_and_estimator_wrong', 0) + 1
+
+
 def oracle(ctx, deep=False):
     R = _rooms()
+    prem = {}
     failures = []
     n = 0
     samples = []
@@ -793,6 +1154,16 @@ def oracle(ctx, deep=False):
         f = _check_case({'kind': 'estimate_ids', 'ss': [s for s in c['ss'] if s]})
         if f and not any(x['class'] == f['class'] for x in failures):
             failures.append(f)
+    # ---- decision logic on scripted candidates: premise (exact arithmetic) => true candidates picked
+    n_prem = 0
+    for c in _decide_cases(ctx, ctx.scale(300, 3000)):
+        n += 1
+        f = _check_decide(c)
+        if f is False:
+            n_prem += 1
+        elif f and not any(x['class'] == f['class'] for x in failures):
+            failures.append(f)
+    prem['scripted_candidates'] = {'premise_holds_and_right': n_prem}
     # ---- EXTENSION (outside C09's quantifier): a call's result is a function of its arguments, also when calls for
     #      different rooms overlap in time (threads in deterministic lock-step, hand-over where inputs are iterated)
     ocases = _overlap_cases(ctx, ctx.scale(3, 20) * (2 if deep else 1))
@@ -811,7 +1182,7 @@ def oracle(ctx, deep=False):
     # ---- structured (axis-aligned, symmetric, half-turn seams) rooms, IPPE replaced by the exact pose + 1e-7 scatter
     n_sx = ctx.scale(40, 600) * (3 if deep else 1)
     sxcases = [R.gen_structured_room(ctx.rng) for _ in range(n_sx)]
-    for case, j in zip(sxcases, _run_rooms(sxcases, True, jitter=1e-7)):
+    for case, (j, _pr) in zip(sxcases, _run_rooms(sxcases, True, jitter=1e-7)):
         n += 1
         if j and not any(x['class'] == j[0] for x in failures):
             failures.append(_room_failure(case, j, 'room_exact', 1e-7))
@@ -820,8 +1191,9 @@ def oracle(ctx, deep=False):
     n_su = ctx.scale(6, 60) * (3 if deep else 1)
     sucases = [R.gen_structured_room(ctx.rng) for _ in range(n_su)]
     su_known = 0
-    for case, j in zip(sucases, _run_rooms(sucases, False)):
+    for case, (j, pr) in zip(sucases, _run_rooms(sucases, False)):
         n += 1
+        _count_premise(prem, 'structured', pr, j)
         if j:
             su_known += j[0] in KNOWN_RATE_CLASSES
             if not any(x['class'] == j[0] for x in failures):
@@ -829,7 +1201,7 @@ def oracle(ctx, deep=False):
     # ---- rooms with IPPE replaced by the exact pose: everything after IPPE must be right, without exception
     n_exact = ctx.scale(120, 1500) * (3 if deep else 1)
     ecases = [R.gen_room(ctx.rng) for _ in range(n_exact)]
-    for case, j in zip(ecases, _run_rooms(ecases, True)):
+    for case, (j, _pr) in zip(ecases, _run_rooms(ecases, True)):
         n += 1
         if j and not any(x['class'] == j[0] for x in failures):
             failures.append(_room_failure(case, j, 'room_exact'))
@@ -838,8 +1210,9 @@ def oracle(ctx, deep=False):
     cases = [R.gen_room(ctx.rng) for _ in range(n_rooms)]
     n_known = 0
     modes = {}
-    for case, j in zip(cases, _run_rooms(cases, False)):
+    for case, (j, pr) in zip(cases, _run_rooms(cases, False)):
         n += 1
+        _count_premise(prem, 'random', pr, j)
         modes[case['mode']] = modes.get(case['mode'], 0) + 1
         if j:
             if j[0] in KNOWN_RATE_CLASSES:
@@ -856,12 +1229,13 @@ def oracle(ctx, deep=False):
                              'mode': cases[0]['mode'], 'vis': cases[0]['vis'][:3]}})
     return {'evaluations': n, 'failures': failures,
             'distinct_nontrivial': len(cases) + len(ecases) + len(sxcases) + len(sucases),
-            'rule': 'rooms: every generated room counts (2..6 stations, 3..40 poses, distinct random geometry)',
+            'rule': 'rooms: every generated room counts (2..6 stations, 3..40 poses, distinct random geometry); '
+                    'decision premise on the unpatched rooms of this run: ' + json.dumps(prem, sort_keys=True),
             'samples': samples,
             'distribution': {'rooms': n_rooms, 'rooms_exact_ippe': n_exact, 'modes': modes,
                              'known_class_failures': n_known, 'structured_rooms_exact_ippe': n_sx,
                              'structured_rooms': n_su, 'structured_known_class_failures': su_known,
-                             'average_cases': len(acases), 'overlapping_call_histories': len(ocases)}}
+                             'average_cases': len(acases), 'decision_premise': prem, 'overlapping_call_histories': len(ocases)}}
 
 
 def replay(payload, ctx):
